@@ -256,7 +256,6 @@ func (c C14) Run(t *tape.Tape, opt core.RunOpt) (res core.Result) {
 					}
 				}
 				cheapBefore := workload.Cheap(root)
-				swallowed := false
 				for _, k := range offs {
 					if kind == iosim.ErrWithByte && k >= len(data) {
 						continue
@@ -275,13 +274,14 @@ func (c C14) Run(t *tape.Tape, opt core.RunOpt) (res core.Result) {
 						return
 					}
 					if e == nil {
-						// a sticky fault that the loader swallowed: the load "succeeded"
-						// on a prefix. Record it as a successful load of what was delivered.
-						res.Count("probe_sticky_fault_swallowed", 1)
-						good = append(good, &c14Load{API: "ParseReader", Bytes: append([]byte(nil), r.Delivered...)})
-						cheapBefore = workload.Cheap(root)
-						swallowed = true
-						continue
+						// a sticky reader error that the loader swallowed: no model (see below)
+						res.Count("probe_reader_error_swallowed_load_succeeded", 1)
+						res.Inconclusive++
+						res.Evaluations += evals
+						op.Fault = fmt.Sprintf("enumerate %s: swallowed at %d", kind, k)
+						op.Outcome = "ok although the reader returned an error (no verdict; run ends)"
+						ops = append(ops, op)
+						return
 					}
 					if now := workload.Cheap(root); now != cheapBefore {
 						after := workload.Observe(root)
@@ -297,9 +297,6 @@ func (c C14) Run(t *tape.Tape, opt core.RunOpt) (res core.Result) {
 					}
 				}
 				res.Count("probe_enumeration_passes", 1)
-				if swallowed {
-					before = workload.Observe(root)
-				}
 				sigParts = append(sigParts, "enum", kind.String(), poisonKind)
 				faultDesc = "after enumerating " + kind.String() + " at " + fmt.Sprint(len(offs)) + " offsets"
 				// fall through to a plain load of the document
@@ -319,6 +316,19 @@ func (c C14) Run(t *tape.Tape, opt core.RunOpt) (res core.Result) {
 				err = safeLoad(&res, func() error { return root.ParseReader(r) })
 				faultDesc = plan.String()
 				faultFired = r.Fired
+				if err == nil && r.Fired && (plan.Kind == iosim.Transient || plan.Kind == iosim.ErrAt || plan.Kind == iosim.ErrWithByte) {
+					// The reader returned a real error and the loader reported success
+					// (e.g. the error is dropped inside a union member list). C14 says
+					// nothing about what such a load should contain, so there is no
+					// model to compare with: the run ends without a verdict.
+					res.Count("probe_reader_error_swallowed_load_succeeded", 1)
+					res.Inconclusive++
+					res.Evaluations += evals
+					op.Fault = faultDesc
+					op.Outcome = "ok although the reader returned an error (no verdict; run ends)"
+					ops = append(ops, op)
+					return
+				}
 				if r.Fired {
 					res.Count("fault_reader_"+plan.Kind.String(), 1)
 				}
